@@ -5,6 +5,7 @@ package main
 // single-input node kind and small pipelines; drive: the real nodes (util_ops.go).
 
 import (
+	"bytes"
 	"bufio"
 	"fmt"
 	"strings"
@@ -15,7 +16,7 @@ import (
 )
 
 func init() {
-	register("C18", &prop{gen: genC18, drive: driveOps})
+	register("C18", &prop{gen: genC18WithJoins, drive: driveC18})
 }
 
 // genTimed: a valid changelog with MONOTONE watermarks and NO late records; event times are zero or above the
@@ -147,4 +148,30 @@ func genC18(g *Gen, tier string, w *bufio.Writer) {
 			fmt.Fprintf(w, "pipe %d %s | %s\n", np, strings.Join(parts, " "), srcTokens(g, s, true))
 		}
 	}
+}
+
+
+// The join half of C18 (watermarks of a stream / outer join never go backwards, no late records in its output):
+// a sample of the C19 generator's (scripts, schedule) lines is run through the real join nodes under the chosen
+// interleaving (hook verifJoinRecv) and judged by C18's oracle on the emitted message sequence.
+func genC18WithJoins(g *Gen, tier string, w *bufio.Writer) {
+	genC18(g, tier, w)
+	var buf bytes.Buffer
+	bw := bufio.NewWriter(&buf)
+	genC19(g, tier, bw)
+	bw.Flush()
+	every := 6
+	for i, line := range strings.Split(buf.String(), "\n") {
+		if line != "" && i%every == 0 {
+			w.WriteString(line)
+			w.WriteByte('\n')
+		}
+	}
+}
+
+func driveC18(toks []string) string {
+	if toks[0] == "sj" || toks[0] == "oj" {
+		return driveC19(toks)
+	}
+	return driveOps(toks)
 }
